@@ -25,6 +25,7 @@ fn main() {
 		"c10" => props::c10::main(&args[2..]),
 		"c14" => props::c14::main(&args[2..]),
 		"c14a" => props::c14a::main(&args[2..]),
+		"c04m" => props::c04m::main(&args[2..]),
 		"c15" => props::c15::main(&args[2..]),
 		"c15child" => props::c15::child_main(&args[2..]),
 		"c05" => props::c05::main(&args[2..]),
